@@ -5,6 +5,7 @@ from .. import cfg as cfgmod
 from ..core import Undecided, node_text
 from ..idioms import increment_of, is_false, is_name, is_true, negated
 from ..model import call_name, dotted, enclosing_func, is_none, names_in, walk_no_nested
+from ..snippet import alpha_equal, contains_stmts, contains_expr
 
 NORMAL = lambda a, b, lab: lab not in ('exc', 'raise', 'assert')  # noqa: E731
 
@@ -334,7 +335,8 @@ def rule_rd_eof(cx, rep, port):
         # _read_until_found sets exhausted only on an empty read
         r = ms['_read_until_found']
         ex = [n for n in walk_no_nested(r) if isinstance(n, ast.Assign) and dotted(n.targets[0]) == 'self.exhausted' and is_true(n.value)]
-        ok = len(ex) == 1 and isinstance(ex[0].parent, ast.If) and _tests_empty(ex[0].parent.test, 'chunk') is True and ex[0] in ex[0].parent.body
+        rv = [n.targets[0].id for n in walk_no_nested(r) if isinstance(n, ast.Assign) and isinstance(n.value, ast.Call) and call_name(n.value) == 'self.stream.read' and isinstance(n.targets[0], ast.Name)]
+        ok = len(ex) == 1 and len(rv) == 1 and isinstance(ex[0].parent, ast.If) and _tests_empty(ex[0].parent.test, rv[0]) is True and ex[0] in ex[0].parent.body
         rep.decide(ok, 'exhaustion', ex[0] if ex else r, 'exhausted is set exactly when read() returns nothing', 'the exhausted flag is not set exactly on an empty read')
         # loop continues until a newline is seen in the chunk
         brk = [n for n in walk_no_nested(r) if isinstance(n, ast.If) and any(isinstance(x, ast.Call) and isinstance(x.func, ast.Attribute) and x.func.attr == 'search' for x in ast.walk(n.test)) and n.body and isinstance(n.body[0], ast.Break)]
@@ -432,21 +434,19 @@ def rule_rd_comment(cx, rep, port):
     if port == 'py':
         fd = p.func('rbql_csv', 'CSVRecordIterator.get_record')
         g = cfgmod.CFG(fd)
-        incs = [n for n in g.nodes if n.kind == 'stmt' and isinstance(n.ast, ast.AugAssign) and dotted(n.ast.target) == 'self.NR']
-        tests = [n for n in g.nodes if n.kind == 'test' and any(isinstance(x, ast.Call) and isinstance(x.func, ast.Attribute) and x.func.attr == 'startswith' for x in ast.walk(n.ast))]
-        if len(incs) != 1 or len(tests) != 1:
-            rep.undecided('comment skip', fd, 'record counter / comment test not recognised')
+        incs = [n for n in g.nodes if n.kind == 'stmt' and isinstance(n.ast, (ast.AugAssign, ast.Assign)) and dotted(n.ast.target if isinstance(n.ast, ast.AugAssign) else n.ast.targets[0]) == 'self.NR']
+        fetch = [n for n in g.nodes if n.kind == 'stmt' and isinstance(n.ast, ast.Assign) and isinstance(n.ast.value, ast.Call) and call_name(n.ast.value) == 'self.polymorphic_get_row']
+        if len(incs) != 1 or len(fetch) != 1:
+            rep.undecided('comment skip', fd, 'record counter / row fetch not recognised')
             return
-        t = tests[0]
-        pre = g.dominates(t, incs[0])
-        # record counter reachable from the test only through the "not a comment" edge
-        e = t.ast
-        ok_shape = isinstance(e, ast.BoolOp) and isinstance(e.op, ast.Or) and any(is_none(getattr(v, 'comparators', [None])[0]) if isinstance(v, ast.Compare) else False for v in e.values) and any(negated(v) is not None for v in e.values)
-        fs = [s for s, lab in t.succ if lab == 'F']
-        loops_back = all(g.exists_path(s, lambda n: n is t, avoid=lambda n: n is incs[0], include_src=True) for s in fs) and bool(fs)
-        rep.decide(pre and ok_shape and loops_back, 'comment skip', t.ast, 'comment lines are skipped before the record counter moves', 'comment-prefixed lines are not skipped before the record counter is incremented (`{}`)'.format(node_text(e)))
-        sw = [x for x in ast.walk(e) if isinstance(x, ast.Call) and isinstance(x.func, ast.Attribute) and x.func.attr == 'startswith']
-        rep.decide(sw and dotted(sw[0].args[0]) == 'self.comment_prefix', 'comment prefix', t.ast, 'line.startswith(comment_prefix)', 'comment test does not use startswith(comment_prefix)')
+        line = dotted(fetch[0].ast.targets[0])
+        bad = _comment_escape_path(g, fetch[0], incs[0], line)
+        if bad is None:
+            rep.undecided('comment skip', fd, 'comment test not recognised')
+        else:
+            rep.decide(bad is False, 'comment skip', fetch[0].ast, 'every path from reading a line to the record counter establishes "no comment prefix configured or the line does not start with it"', 'a line that starts with the comment prefix can reach the record counter (path through line {}): comment lines are processed as records'.format(bad))
+        sw = [x for x in ast.walk(fd) if isinstance(x, ast.Call) and isinstance(x.func, ast.Attribute) and x.func.attr == 'startswith']
+        rep.decide(bool(sw) and all(dotted(x.args[0]) == 'self.comment_prefix' and dotted(x.func.value) == line for x in sw), 'comment prefix', sw[0] if sw else fd, 'line.startswith(comment_prefix)', 'the comment test is not `line.startswith(self.comment_prefix)`')
         # empty prefix is normalised to None
         init = p.func('rbql_csv', 'CSVRecordIterator.__init__')
         cp = [n for n in walk_no_nested(init) if isinstance(n, ast.Assign) and dotted(n.targets[0]) == 'self.comment_prefix']
@@ -460,6 +460,54 @@ def rule_rd_comment(cx, rep, port):
         cm = [n for n in walk_no_nested(agg) if isinstance(n, ast.If) and any(isinstance(x, ast.Call) and isinstance(x.func, ast.Attribute) and x.func.attr == 'startsWith' for x in ast.walk(n.test))]
         ok2 = bool(cm) and 'len(self.rfc_line_buffer) == 0' in node_text(cm[0].test, 400)
         rep.decide(ok2, 'rfc comment skip', cm[0] if cm else agg, 'in quoted_rfc a comment is recognised only outside a multi-line record', 'in quoted_rfc a comment prefix inside a multi-line record is treated as a comment')
+
+
+def _comment_escape_path(g, src, dst, line):
+    """False if no path src -> dst is consistent with (prefix is not None and line.startswith(prefix)); a line number if one is;
+    None if the tests are not recognised.  Atoms: A = `self.comment_prefix is None`, B = `line.startswith(self.comment_prefix)`."""
+    def ev(e, A, B):
+        if isinstance(e, ast.BoolOp):
+            vals = [ev(v, A, B) for v in e.values]
+            if any(v is None for v in vals):
+                return None
+            return all(vals) if isinstance(e.op, ast.And) else any(vals)
+        if isinstance(e, ast.UnaryOp) and isinstance(e.op, ast.Not):
+            v = ev(e.operand, A, B)
+            return None if v is None else (not v)
+        if isinstance(e, ast.Compare) and dotted(e.left) == 'self.comment_prefix' and is_none(e.comparators[0]):
+            return A if isinstance(e.ops[0], (ast.Is, ast.Eq)) else (not A)
+        if isinstance(e, ast.Call) and isinstance(e.func, ast.Attribute) and e.func.attr == 'startswith' and dotted(e.func.value) == line:
+            return B
+        if dotted(e) == 'self.comment_prefix':
+            return not A
+        return None
+    seen_tests = [n for n in g.nodes if n.kind == 'test' and ('comment_prefix' in node_text(n.ast, 300))]
+    if not seen_tests:
+        return None
+    # search paths src -> dst under the valuation A=False, B=True (a comment line with a configured prefix)
+    A, B = False, True
+    stack = [src]
+    seen = set()
+    while stack:
+        n = stack.pop()
+        if n.id in seen:
+            continue
+        seen.add(n.id)
+        if n is dst:
+            return n.lineno
+        for s_, lab in n.succ:
+            if lab in ('exc', 'raise', 'assert'):
+                continue
+            if n.kind == 'test' and n in seen_tests:
+                v = ev(n.ast, A, B)
+                if v is None:
+                    return None
+                if (lab == 'T') != v:
+                    continue
+            if s_ is src:
+                continue   # a new line is fetched: new valuation
+            stack.append(s_)
+    return False
 
 
 def rule_rd_rfc(cx, rep, port):
@@ -587,6 +635,22 @@ def rule_rd_jschunk(cx, rep, port='js'):
     p = cx.js
     fd = p.func('rbql_csv', 'CSVRecordIterator.process_data_stream_chunk')
     body = list(walk_no_nested(fd))
+    reference = '''
+line_starts_with_lf = len(decoded_string) and decoded_string[0] == '\\n'
+first_line_index = 1 if line_starts_with_lf and self.partially_decoded_line_ends_with_cr else 0
+self.partially_decoded_line_ends_with_cr = len(decoded_string) and decoded_string[len(decoded_string) - 1] == '\\r'
+lines = csv_utils.split_lines(decoded_string)
+lines[0] = self.partially_decoded_line + lines[0]
+assert first_line_index == 0 or len(lines[0]) == 0
+self.partially_decoded_line = lines.pop()
+for i in range(first_line_index, len(lines)):
+    self.process_line(lines[i])
+'''
+    if contains_stmts(fd, reference):
+        for k in ('carry-over prepend', 'carry-over save', 'carry-over stores', 'complete lines', 'CRLF across chunks', 'leading LF test', 'trailing CR flag'):
+            rep.holds(k, fd, 'chunk pipeline is alpha-equivalent to the reference schema (prepend carry-over, keep last line, process complete lines once in order, CRLF flag)')
+        _jschunk_rest(cx, rep, p)
+        return
     # lines = split_lines(decoded)
     sp = [n for n in body if isinstance(n, ast.Assign) and isinstance(n.value, ast.Call) and (call_name(n.value) or '').endswith('split_lines')]
     if len(sp) != 1:
@@ -620,6 +684,10 @@ def rule_rd_jschunk(cx, rep, port='js'):
     cr = [n for n in body if isinstance(n, ast.Assign) and dotted(n.targets[0]) == 'self.partially_decoded_line_ends_with_cr']
     okcr = len(cr) == 1 and "== '\\r'" in node_text(cr[0].value) and '- 1]' in node_text(cr[0].value) and (not fi or cr[0].lineno > fi[0].lineno)
     rep.decide(okcr, 'trailing CR flag', cr[0] if cr else fd, 'flag := chunk ends with CR, updated after the previous value was used', 'the ends-with-CR flag is not recomputed from the last character of every chunk after its previous value was consumed')
+    _jschunk_rest(cx, rep, p)
+
+
+def _jschunk_rest(cx, rep, p):
     # bulk path: trailing empty line dropped, all lines processed
     bulk = p.func('rbql_csv', 'CSVRecordIterator.process_data_bulk')
     bl = [n for n in walk_no_nested(bulk) if isinstance(n, ast.For)]
